@@ -14,7 +14,7 @@ LEVEL = 'model_checking'
 RULE = ('(a) every history of depth <= D over the event menu {start (and take the first answer of) an enumeration of '
         'p(X) / retract(p(X)) / retract(p(a)) in a free slot (<= 2 suspended at once); step slot 1|2; close slot 1|2; '
         'asserta(p(c)); assertz(p(c)); retract(p(b)) once; retractall(p(a))} from the initial stores [] [a] [a,b] '
-        '[a,b,a], replayed on a fresh engine through the Python API with the reference model (logical update view: '
+        '[a,b,a] (and, over a 9-event alphabet with the partially bound patterns retract(p(f(X))) / retractall(p(f(_))), from the store [f(a),b,f(b),f(a)]), replayed on a fresh engine through the Python API with the reference model (logical update view: '
         'snapshot of fact identities when the goal starts; a retract skips facts that are gone) stepped alongside; after '
         'EVERY event the answer / exhaustion of the enumeration and the store read back must equal the model\'s. '
         '(b) every clause body of <= G goals over {p(X) p(Y) assertz(p(c)) asserta(p(c)) retract(p(X)) retract(p(Y)) '
@@ -28,10 +28,13 @@ ASSUMPTIONS = ['an enumeration "starts" when its first answer is requested (crea
                'reference: RefProlog database with logical update view']
 X = V('X')
 a, b, c = A('a'), A('b'), A('c')
-INITIAL = [[], [a], [a, b], [a, b, a]]
-STARTS = {'q': F('p', X), 'rX': F('retract', F('p', X)), 'ra': F('retract', F('p', a))}
+fa, fb = F('f', a), F('f', b)
+INITIAL = [[], [a], [a, b], [a, b, a], [fa, b, fb, fa]]
+STARTS = {'q': F('p', X), 'rX': F('retract', F('p', X)), 'ra': F('retract', F('p', a)), 'rf': F('retract', F('p', F('f', X)))}
 EVENTS = ['start:q', 'start:rX', 'start:ra', 'step:1', 'step:2', 'close:1', 'close:2',
           'asserta', 'assertz', 'retract_b', 'retractall_a']
+# a second alphabet for the store with structured facts: partially bound retract patterns
+STRUCT_EVENTS = ['start:q', 'start:rf', 'start:rX', 'step:1', 'step:2', 'close:1', 'assertz', 'retractall_f', 'retract_b']
 
 
 def bounds(tier):
@@ -94,6 +97,8 @@ class Run:
             goal = F('assertz', F('p', c))
         elif ev == 'retract_b':
             goal = F('retract', F('p', b))
+        elif ev == 'retractall_f':
+            goal = F('retractall', F('p', F('f', ('v', ('_', 1)))))
         else:
             goal = F('retractall', F('p', a))
         h = w.start(goal)
@@ -217,10 +222,11 @@ def run_shard(spec):
     acc = Acc()
     if spec[0] == 'h':
         _, depth, k, n = spec
-        for idx, hist in enumerate(histories(depth)):
-            if idx % n != k:
-                continue
-            for ii, init in enumerate(INITIAL):
+        work = [(idx, hist, ii) for idx, hist in enumerate(histories(depth)) if idx % n == k for ii in range(4)]
+        work += [(10 ** 7 + idx, hist, 4) for idx, hist in enumerate(itertools.product(STRUCT_EVENTS, repeat=depth)) if idx % n == k]
+        for idx, hist, ii in work:
+            init = INITIAL[ii]
+            if True:
                 r = run_history(init, hist)
                 if r[0] == 'disabled':
                     acc.n['disabled_histories'] += 1
